@@ -77,6 +77,54 @@ rep("""    for i in 0..a.len() {
 # 12. K7: draining written with a named sink
 rep("""                std::io::copy(&mut compressed_reader, &mut std::io::sink())?;""", """                let mut rest = std::io::sink();
                 std::io::copy(&mut compressed_reader, &mut rest)?;""")
+# ---- set C: edits aimed at the rules added in round 5 -----------------------------------------
+# 13. Q4b: the return values of nested definitions compared before the arguments
+rep("""            for (arg_index, (a_arg, b_arg)) in amet.info.arguments.iter().zip(bmet.info.arguments.iter()).enumerate() {
+                if let Some(diff) = diff_schema(
+                    &a_arg.schema,
+                    &b_arg.schema,
+                    format!("{}(arg #{})", amet.name, arg_index),
+                    is_return_pos,
+                ) {
+                    return Some(diff);
+                }
+            }
+            if let Some(diff) = diff_schema(
+                &amet.info.return_value,
+                &bmet.info.return_value,
+                format!("{}(return value)", amet.name),
+                true,
+            ) {
+                return Some(diff);
+            }
+""", """            if let Some(diff) = diff_schema(
+                &amet.info.return_value,
+                &bmet.info.return_value,
+                format!("{}(return value)", amet.name),
+                true,
+            ) {
+                return Some(diff);
+            }
+            for (arg_index, (a_arg, b_arg)) in amet.info.arguments.iter().zip(bmet.info.arguments.iter()).enumerate() {
+                if let Some(diff) = diff_schema(
+                    &a_arg.schema,
+                    &b_arg.schema,
+                    format!("{}(arg #{})", amet.name, arg_index),
+                    is_return_pos,
+                ) {
+                    return Some(diff);
+                }
+            }
+""")
+# 14. K8: the loop guard of CryptoWriter::flush written the other way round
+rep("""            while self.buf.len() > offset {""", """            while offset < self.buf.len() {""")
+# 15. W18 / T3: the Duration reader goes through the helper SystemTime already uses (same value for every input)
+rep("""        let temp = deserializer.read_u128()?;
+        Ok(Duration::from_secs((temp / 1_000_000_000) as u64) + Duration::from_nanos((temp % 1_000_000_000) as u64))""",
+    """        let temp = deserializer.read_u128()?;
+        let secs = Duration::from_secs((temp / 1_000_000_000) as u64);
+        let subsec = Duration::from_nanos((temp % 1_000_000_000) as u64);
+        Ok(secs + subsec)""")
 open(p,'w').write(s)
 # savefile-abi: Q7 (hoisted latest version), L1/L2/L4 (template lookup in a scoped block; negotiation still under the lock)
 p='savefile-abi/src/lib.rs'; s=open(p).read()
@@ -84,6 +132,12 @@ rep("""    for version in 0..=T::get_latest_version() {
         let def = T::get_definition(version);""", """    let latest = T::get_latest_version();
     for version in 0..=latest {
         let def = T::get_definition(version);""")
+# 16. N9: wake delegates to wake_by_ref
+rep("""    fn wake(self: Arc<Self>) {
+        (self.waker)();
+    }""", """    fn wake(self: Arc<Self>) {
+        self.wake_by_ref();
+    }""")
 open(p,'w').write(s)
 PY
 git diff --stat
